@@ -278,6 +278,13 @@ def run_c02(run, thorough=False):
         if any(s["bytes"] is None or s["addr"] is None for s in im["stmts"]) or im["image"] is None:
             continue          # C13's business
         stmts = im["stmts"]
+        noaddr = [s for s in stmts if not s["addr"]]
+        if noaddr:
+            # an ORG whose operand is not a number keeps a symbol as "address": the listing shows no address and the origin is 0
+            rid = "B9" if all(s["mn"] == "ORG" for s in noaddr) else None
+            run.violate("C02: a statement of an accepted program has no listing address", inp, "an address", [[s["mn"], s["opnd"]] for s in noaddr][:3],
+                        known_id=rid if (rid and same) else None)
+            continue
         # (1) image is the in-order concatenation
         if im["image"] != "".join(s["bytes"] for s in stmts):
             run.violate("C02: the image is not the in-order concatenation of the statements' bytes", inp, "concat", im["image"][:80])
@@ -363,7 +370,8 @@ def run_c03(run, thorough=False):
             else:
                 m = REL_RE.match(st["opnd"] or "")
                 kind = "pcr"
-            if not m or m.group("lab") not in syms or syms[m.group("lab")] is None:
+            equ_syms = {x["label"] for x in im["stmts"] if x["mn"] == "EQU"}
+            if not m or m.group("lab") not in syms or syms[m.group("lab")] is None or m.group("lab") in equ_syms:
                 if (row.is_short_branch or row.is_long_branch):
                     todo.append((c, im, i, st, None, "branch-nonlabel"))
                 continue
@@ -387,6 +395,14 @@ def run_c03(run, thorough=False):
             continue
         if (addr + d["n"] + disp - tgt) % 65536 != 0:
             rid = size_region(im) or ("B3" if kind == "branch" and BR_RE.match(st["opnd"]).group("k") else None)
+            if rid is None:
+                # an ORG after the first byte-emitting statement (finding B1): displacements are sums of sizes, not address differences
+                emitted = False
+                for x in im["stmts"]:
+                    if x["mn"] == "ORG" and emitted:
+                        rid = "B1"
+                    if x["bytes"]:
+                        emitted = True
             run.violate("C03: (address of the following instruction + displacement) mod 65536 is not the address of the referenced label (+constant)", inp,
                         {"next": addr + d["n"], "target": tgt}, {"bytes": st["bytes"], "displacement": disp},
                         known_id=rid if (rid and same) else None)
